@@ -72,6 +72,8 @@ var Features = []string{
 	"glossary",       // word/glossary/document.xml with its own relationships and styles part
 	"comments",       // word/comments.xml + comment range and reference around a run
 	"media-override", // body picture whose content type is given by an Override, not by a Default extension
+	"stylesWithEffects", // Word 2010 word/stylesWithEffects.xml, its relationship listed before all others
+	"shared-hdr-id",  // default and even header references that use the same relationship id (one header part for both)
 }
 
 // Conflict reports whether two features cannot be combined.
@@ -325,6 +327,19 @@ func Compose(feats []string) []byte {
 		id := docRel(RtImage, "media/image3.png", false)
 		docPr++
 		body += DrawingPara(id, docPr, 9525*3, 9525*2)
+	}
+	if has["stylesWithEffects"] {
+		addPart("word/stylesWithEffects.xml", StylesXML(), "application/vnd.ms-word.stylesWithEffects+xml")
+		id := ids.next()
+		p.DocRels = append([]Rel{{ID: id, Type: "http://schemas.microsoft.com/office/2007/relationships/stylesWithEffects", Target: "stylesWithEffects.xml"}}, p.DocRels...)
+	}
+	if has["shared-hdr-id"] {
+		addPart("word/header7.xml", HeaderXML("[hdr-shared]"), CtHeader)
+		id := docRel(RtHeader, "header7.xml", false)
+		if !has["hdr-default"] {
+			sectRefs += `<w:headerReference w:type="default" r:id="` + id + `"/>`
+		}
+		sectRefs += `<w:headerReference w:type="even" r:id="` + id + `"/>`
 	}
 	sect := `<w:sectPr>` + sectRefs + `<w:pgSz w:w="11906" w:h="16838"/><w:pgMar w:top="1440" w:right="1800" w:bottom="1440" w:left="1800" w:header="851" w:footer="992" w:gutter="0"/>` + titlePg + `</w:sectPr>`
 	if has["sectpr-in-para"] {
